@@ -61,7 +61,9 @@ def shards(tier, seed):
         out.append({"kind": "contracts", "n": 40000})
         out.append({"kind": "polluted", "hi": B2 + 500})
         out.append({"kind": "shuffled", "n": 60000})
+        out.append({"kind": "threads", "rounds": 3})
     else:
+        out.append({"kind": "threads", "rounds": 12})
         step = B3 // 64 + 1
         for lo in range(0, B3 + 1, step):
             out.append({"kind": "enc_range", "lo": lo, "hi": min(B3 + 1000, lo + step)})
@@ -307,6 +309,33 @@ def run(shard, rec, tier, seed):
         rec.count("roundtrip", shard["n"] // 2)
         rec.count("decode-formula", shard["n"] // 2)
         rec.count("repeated-shuffled-calls", shard["n"])
+    elif kind == "threads":
+        # pure functions called from several threads at once, each with numbers of another width
+        from vf.mon import threads as thr
+
+        calls = [0]
+
+        def work(tid, rnd):
+            r = random.Random("C07-thr-%d-%d" % (rnd, tid))
+            lo, hi = [(0, 253), (253, B2), (B2, B3), (B3, B4)][tid % 4]
+            out = []
+            for _ in range(3000):
+                n = r.randrange(lo, hi)
+                e = ns.numbers.encode_number(n)
+                d = ns.numbers.decode_number(e)
+                calls[0] += 1
+                if bytes(e) != ref.encode(n) or d != n:
+                    out.append(("differential-encode", "encode_number(%d) = %s (reference %s), decoded %r, while other threads were encoding numbers of other widths" % (n, bytes(e).hex(), ref.encode(n).hex(), d), {"n": n, "threads": 4}))
+                    break
+            return out
+        found, errors = thr.hammer(work, 4, shard["rounds"])
+        for e in errors:
+            rec.violation("encode-raises", "a call from a worker thread raised: " + e, {"threads": 4})
+        for mech, msg, case in found[:3]:
+            rec.violation(mech, msg, case)
+        rec.count("calls-from-concurrent-threads", calls[0])
+        rec.case(("threads", shard["rounds"]), n=calls[0])
+        rec.count("roundtrip", calls[0])
     elif kind == "polluted":
         # hostile history: out-of-domain calls first (a codec with hidden shared state - caches, tables -
         # must not let them change what in-range numbers encode to afterwards), then the in-range sweep
